@@ -101,6 +101,27 @@ def light_fns(crate):
     return _LIGHT[key]
 
 
+_PRINT = {}
+
+
+def print_inline(crate, extra=()):
+    """Inline policy for evaluations of the printer: every local function of print.rs that does not call itself
+    (helpers for token texts, escapes, digits; the Formatter methods that forward to each other).  Loops inside
+    them are bounded by the simulator's visit limit."""
+    key = id(crate)
+    if key not in _PRINT:
+        ok = set()
+        for f in crate.fns:
+            if f.kind == "closure" or not f.file.endswith("print.rs"):
+                continue
+            if any(f.path in F.callee_names(t) or t["callee"].get("resolved") == f.path for _, t in f.calls()):
+                continue
+            ok.add(f.path)
+        _PRINT[key] = ok
+    ok = _PRINT[key] | set(extra)
+    return lambda a, b: b.path in ok
+
+
 def helper_inline(crate, named=()):
     """Inline policy: the named wrappers plus every loop-free local helper of the parse module and every
     local byte predicate `fn(u8) -> bool`."""
